@@ -16,9 +16,10 @@ DECIDED = [
     'R3: the protecting comparison in the pruning callback is strict; wholesale replacement and the list pre-filter let the newer node win ties.',
     'R4: removals are control-dependent on a delete flag; a key is removed only when the merge result is empty and the newer node carries an explicit delete flag.',
     'R5: !clear fetches the node at its own absolute path from the merge root, empties it and returns that same object.',
+    'R7: type promotion table (_maybe_promote) over all pairs of node classes: the more specific kind survives, is emptied and refilled from the winner with the conversion matching the two built-in bases (list <- mapping: values(); mapping <- list: enumerate()), attributes copied from the winner.',
     'R6: !del / !merge constructors set exactly delete=True / False on a plain node.',
 ]
-UNDECIDED = ['type promotion (_maybe_promote) content;', 'interplay of three-level flag inheritance with concrete data.']
+UNDECIDED = ['interplay of three-level flag inheritance with concrete data.']
 
 
 def r5(repo, run):
@@ -90,6 +91,7 @@ def check(repo, run, tier):
     mr.removal_guards(repo, run, 'C04.R4')
     r5(repo, run)
     check_flag_tags(repo, run, 'C04.R6', tags={'!del', '!merge'})
+    mr.promotion_table(repo, run, 'C04.R7')
 
 
 def mutants(repo):
@@ -109,6 +111,9 @@ def mutants(repo):
         Mutant('clear-only-for-leaves', lambda r: in_func(r, 'ClearNode.ayns.on_premerge_impl', "        node.clear()\n", "        if not node.ayns.is_leaf:\n            node.ayns.filter_nodes(lambda p, child: child.ayns.has_priority_over(self), prefix=path)\n        else:\n            node.clear()\n"), ['C04.R5']),
         Mutant('counterpart-falls-back-to-root', lambda r: in_func(r, 'ComposedNode.ayns.get_first_not_missing_node', "incomplete=True)", "incomplete=None)"), ['C04.R3']),
         Mutant('clear-returns-new-dict', lambda r: in_func(r, 'ClearNode.ayns.on_premerge_impl', "        node.clear()\n        return node", "        node.clear()\n        return type(node)()"), ['C04.R5']),
+        Mutant('promotion-forgets-clear', lambda r: in_func(r, 'ConfigNode._maybe_promote', "            other.clear()\n            if isinstance(other, list):\n                other.extend(self)", "            if isinstance(other, list):\n                other.extend(self)"), ['C04.R7']),
+        Mutant('promotion-list-from-mapping-keys', lambda r: in_func(r, 'ConfigNode._maybe_promote', "other.extend(self.values())", "other.extend(self)"), ['C04.R7']),
+        Mutant('promotion-keeps-plain-type', lambda r: in_func(r, 'ConfigNode._maybe_promote', "        if issubclass(type(other), type(self)):", "        if issubclass(type(other), type(self)) and False:"), ['C04.R7']),
         Mutant('del-tag-merges', lambda r: in_func(r, 'yaml._del_constructor', "'delete': True", "'delete': False"), ['C04.R6']),
         Mutant('neutral-prefix-len-inline', lambda r: in_func(r, 'ComposedNode.ayns.on_merge_impl', "path[_prefix_len:]", "path[len(prefix_):]") if False else
                in_func(r, 'ComposedNode.ayns.on_merge_impl', "                _prefix_len = len(path)\n", "                _prefix_len = len(path)\n                _unused = None\n"), neutral=True),
